@@ -32,6 +32,59 @@ Fixpoint updates (o : origin) (ds : list (N * N)) : list (option (N * N)) :=
               r :: match r with Some _ => updates o' t | None => [] end
   end.
 
+(* ---------- CreateOffer's recompute loop (peerconnection.go CreateOffer) ----------
+   for { generate descr; updateSDPOrigin(&pc.sdpOrigin, descr); marshal;
+         if isPlanB || !hasLocalDescriptionChanged(&offer) { break }
+         count++; if count >= 128 { return errExcessiveRetries } }
+   One call is driven by the fresh description of its first generation and the
+   fresh descriptions of the generations that follow a detected change ("offer
+   changed while being generated"); every generation calls updateSDPOrigin,
+   the description of the LAST generation is returned.  CreateAnswer has no
+   loop: a call with no retries. *)
+Inductive call_result : Type :=
+| Returned (o : N * N)     (* the description handed to the caller carries o *)
+| Excessive                (* errExcessiveRetries: nothing is handed out *)
+| Hangs.                   (* updateSDPOrigin never returns (saved id 0) *)
+
+Definition max_retries : nat := 128.
+
+Fixpoint offer_loop (o : origin) (count : nat) (d : N * N) (retries : list (N * N))
+  : origin * call_result :=
+  let (o', r) := update o d in
+  match r with
+  | None => (o, Hangs)
+  | Some out =>
+      match retries with
+      | [] => (o', Returned out)                               (* not changed: break *)
+      | d' :: rest =>
+          if (max_retries <=? S count)%nat then (o', Excessive) (* count++; count >= 128 *)
+          else offer_loop o' (S count) d' rest
+      end
+  end.
+
+(* a history of CreateOffer / CreateAnswer calls on one PeerConnection (they
+   hold pc.mu, so they are sequential) *)
+Definition gcall := ((N * N) * list (N * N))%type.
+
+Fixpoint calls (o : origin) (h : list gcall) : list call_result :=
+  match h with
+  | [] => []
+  | (d, retries) :: t =>
+      let (o', r) := offer_loop o 0 d retries in
+      r :: match r with Hangs => [] | _ => calls o' t end
+  end.
+
+(* generations one call runs: 1 + retries, at most 128 *)
+Definition gens_of (c : gcall) : nat := Nat.min (S (length (snd c))) max_retries.
+Definition total_gens (h : list gcall) : nat := fold_right (fun c a => (gens_of c + a)%nat) 0%nat h.
+
+Fixpoint returned (rs : list call_result) : list (N * N) :=
+  match rs with
+  | [] => []
+  | Returned o :: t => o :: returned t
+  | _ :: t => returned t
+  end.
+
 (* ---------- concurrent ---------- *)
 
 Inductive opc : Type :=
